@@ -32,7 +32,8 @@ def feats(**kw):
 ONAMES = ["o1", "o10", "o2", "o20", "o3", "o30", "o4", "o40"]
 PNAMES = ["p1", "p10", "p2", "p20"]
 FNAMES = ["f1", "f10", "f2", "f20"]
-KNAMES = ["k1", "k10"]
+KNAMES = ["k1", "k10", "k2", "k20"]
+ANAMES = ["ag1", "ag10", "ag2", "ag20"]      # agents too: one name a proper prefix of another
 
 
 def gen_vocab(ch, ft):
@@ -55,7 +56,8 @@ def gen_vocab(ch, ft):
 
     consts = []
     if ft["constants"] and ch.flag(0.5):
-        for i in range(ch.int(1, 2)):
+        # up to four constants, so that constants of one type can be declared around one of another type
+        for i in range(ch.weighted([(3, 1), (3, 2), (2, 3), (1, 4)])):
             t = pick_type()
             consts.append([KNAMES[i], "object" if t == "agent" else t])
     preds = []
@@ -73,7 +75,7 @@ def gen_vocab(ch, ft):
     if ft.get("agent_first"):
         objects = [o for o in objects if o[1] != "agent"]
         for i in range(ch.int(ft.get("min_agents", 2), 4)):
-            objects.append([f"ag{i}", "agent"])
+            objects.append([ANAMES[i], "agent"])
     dom = {"name": "d", "typed": typed, "types": types, "constants": consts, "predicates": preds,
            "functions": funcs, "actions": []}
     return dom, objects
